@@ -100,8 +100,8 @@ PROPS = {
             dict(name="TestMemory", quick=3000, thorough=80000, shards_thorough=6),
             dict(name="TestSQLite", quick=300, thorough=8000, shards_thorough=10, shrinktime="20s"),
             dict(name="TestSQLiteMemory", quick=150, thorough=3000, shards_thorough=2, shrinktime="20s"),
-            dict(name="TestDurable", quick=1500, thorough=40000, shards_thorough=6, shrinktime="20s"),
-            dict(name="TestConcurrentAppend", quick=120, thorough=6000, shards_thorough=8, race=True, shrinktime="5s"),
+            dict(name="TestDurable", quick=1500, thorough=25000, shards_thorough=6, shrinktime="20s"),
+            dict(name="TestConcurrentAppend", quick=120, thorough=3000, shards_thorough=8, race=True, shrinktime="5s"),
             dict(name="TestKnownProbes", quick=1, thorough=1, shards_thorough=1, rapid=False),
             dict(name="FuzzRoundTrip", quick=0, thorough=120, shards_thorough=1, fuzz=True, rapid=False, fuzz_workers=8),
         ],
@@ -183,11 +183,11 @@ PROPS = {
         level_note="Graphs are acyclic by construction (C16 covers acceptance); at most one failing upcaster per case.",
         assumptions=COMMON_ASSUME,
         tests=[
-            dict(name="TestRawGraph", quick=4000, thorough=400000, shards_thorough=10),
+            dict(name="TestRawGraph", quick=4000, thorough=250000, shards_thorough=10),
             dict(name="TestTypedChain", quick=3000, thorough=300000, shards_thorough=6),
-            dict(name="TestConcurrentReplays", quick=3000, thorough=200000, shards_thorough=8, shrinktime="5s"),
+            dict(name="TestConcurrentReplays", quick=3000, thorough=60000, shards_thorough=8, shrinktime="5s"),
             dict(name="TestLongChain", quick=600, thorough=30000, shards_thorough=4),
-            dict(name="TestClearDuringChain", quick=800, thorough=40000, shards_thorough=8, shrinktime="5s"),
+            dict(name="TestClearDuringChain", quick=800, thorough=20000, shards_thorough=8, shrinktime="5s"),
             dict(name="FuzzGraph", quick=0, thorough=120, shards_thorough=1, fuzz=True, rapid=False, fuzz_workers=8),
         ],
     ),
@@ -198,7 +198,7 @@ PROPS = {
         level_note="Collections use separate stores (the documented usage); callbacks are counted, not timed.",
         assumptions=COMMON_ASSUME,
         tests=[
-            dict(name="TestFold", quick=5000, thorough=240000, shards_thorough=16),
+            dict(name="TestFold", quick=5000, thorough=150000, shards_thorough=16),
         ],
     ),
     "C19": dict(
@@ -250,7 +250,7 @@ PROPS = {
         tests=[
             dict(name="TestPrograms", quick=300, thorough=16000, shards_thorough=12, race=True, shrinktime="20s",
                  gorace="log_path={sdir}/race suppress_equal_stacks=0 suppress_equal_addresses=0", timeout_quick=1200),
-            dict(name="TestMaterializerStorm", quick=150, thorough=8000, shards_thorough=8, race=True, shrinktime="20s",
+            dict(name="TestMaterializerStorm", quick=150, thorough=4000, shards_thorough=8, race=True, shrinktime="20s",
                  gorace="log_path={sdir}/race suppress_equal_stacks=0 suppress_equal_addresses=0", timeout_quick=1200),
         ],
     ),
